@@ -120,8 +120,12 @@ def replay_finding(args) -> Dict:
         elif what == 'mc_step':
             pre, op, actor = wit.get('pre_holder'), wit.get('op'), wit.get('actor')
             res, raw = concrete.run_mc_history(info, pc, d, pre, op, actor, wit.get('clients', ['c0', 'c1']),
-                                                wit.get('claim_reply'))
-            if '__error__' in res:
+                                                wit.get('claim_reply'), asan=bool(wit.get('dangling')))
+            if wit.get('dangling'):
+                out['reproduced'] = 'ASAN-REPORT' in raw
+                out['detail'] = raw[raw.find('ASAN-REPORT'):][:400] if out['reproduced'] else \
+                    'AddressSanitizer reports nothing for the same history'
+            elif '__error__' in res:
                 out['detail'] = str(res['__error__'])[:300]
             else:
                 holder = res['__holder__'][0]
